@@ -30,7 +30,7 @@ Definition rsl_depth (l : list rsel) : nat := fold_right (fun x a => Nat.max (rs
 Fixpoint rs_max_ty (x : rsel) : nat :=
   match x with
   | RsField _ _ _ _ t l =>
-      Nat.max (ty_size t)
+      Nat.max (cv_ty_size t)
         ((fix go (l : list rsel) : nat := match l with [] => O | y :: r => Nat.max (rs_max_ty y) (go r) end) l)
   | RsInline _ _ l =>
       (fix go (l : list rsel) : nat := match l with [] => O | y :: r => Nat.max (rs_max_ty y) (go r) end) l
@@ -39,18 +39,18 @@ Fixpoint rs_max_ty (x : rsel) : nat :=
 
 Definition rsl_max_ty (l : list rsel) : nat := fold_right (fun x a => Nat.max (rs_max_ty x) a) O l.
 
-Fixpoint value_nodes (v : value) : nat :=
+Fixpoint ex_value_nodes (v : value) : nat :=
   S (match v with
-     | VList l => (fix go (l : list value) : nat := match l with [] => O | x :: r => (value_nodes x + go r)%nat end) l
+     | VList l => (fix go (l : list value) : nat := match l with [] => O | x :: r => (ex_value_nodes x + go r)%nat end) l
      | VObject fs => (fix go (l : list (str * value)) : nat :=
-                        match l with [] => O | (_, x) :: r => (value_nodes x + go r)%nat end) fs
+                        match l with [] => O | (_, x) :: r => (ex_value_nodes x + go r)%nat end) fs
      | _ => O
      end).
 
 Fixpoint rs_arg_nodes (x : rsel) : nat :=
   match x with
   | RsField _ _ args _ _ l =>
-      (fold_right (fun a acc => (value_nodes (snd a) + acc)%nat) O args +
+      (fold_right (fun a acc => (ex_value_nodes (snd a) + acc)%nat) O args +
        (fix go (l : list rsel) : nat := match l with [] => O | y :: r => (rs_arg_nodes y + go r)%nat end) l)%nat
   | RsInline _ _ l =>
       (fix go (l : list rsel) : nat := match l with [] => O | y :: r => (rs_arg_nodes y + go r)%nat end) l
@@ -68,9 +68,9 @@ Definition rd_max (f : list rsel -> nat) (d : rdoc) : nat := fold_right (fun l a
 Definition ex_schema_arg_ty_max (s : schema) : nat :=
   fold_right (fun t acc =>
     match t with
-    | EInput _ _ _ fs _ => fold_right (fun f a => Nat.max (ty_size (iv_ty (c_val f))) a) acc fs
+    | EInput _ _ _ fs _ => fold_right (fun f a => Nat.max (cv_ty_size (iv_ty (c_val f))) a) acc fs
     | EObject _ _ _ _ fs _ | EInterface _ _ _ _ fs _ =>
-        fold_right (fun f a => fold_right (fun iv a' => Nat.max (ty_size (iv_ty iv)) a') a (fd_args (c_val f))) acc fs
+        fold_right (fun f a => fold_right (fun iv a' => Nat.max (cv_ty_size (iv_ty iv)) a') a (fd_args (c_val f))) acc fs
     | _ => acc
     end) 1%nat (sch_types s).
 
